@@ -172,6 +172,9 @@ func (t *txWorld) symKey(raw []byte) string {
 			if bytes.Equal(utils.GovernanceContractAddress[:], a) {
 				return txGov
 			}
+			if bytes.Equal(utils.OntContractAddress[:], a) {
+				return "OC"
+			}
 			return ""
 		}
 		tok := ""
@@ -183,6 +186,16 @@ func (t *txWorld) symKey(raw []byte) string {
 		if tok == "ong" && len(rest) == 20 {
 			if r := roleOf(rest); r != "" {
 				return "ONG:" + r
+			}
+		}
+		if tok == "ont" && len(rest) == 20 {
+			if r := roleOf(rest); r != "" {
+				return "ONT:" + r
+			}
+		}
+		if tok == "ont" && len(rest) == len(ont.UNBOUND_TIME_OFFSET_KEY)+20 && string(rest[:len(ont.UNBOUND_TIME_OFFSET_KEY)]) == ont.UNBOUND_TIME_OFFSET_KEY {
+			if r := roleOf(rest[len(ont.UNBOUND_TIME_OFFSET_KEY):]); r != "" {
+				return "UO:" + r
 			}
 		}
 		if tok != "" && len(rest) == 40 {
@@ -462,7 +475,8 @@ func TestVerifTxExec(t *testing.T) {
 		}
 		if b.Reset || len(b.Fund) > 0 {
 			var frac []string
-			ev := txEvent{Event: "Reset", Ong: tw.ongView(map[string][]byte{}, &frac), Frac: frac, Block: w.store.GetCurrentBlockHeight()}
+			ev := txEvent{Event: "Reset", Ong: tw.ongView(map[string][]byte{}, &frac), Frac: frac, Block: w.store.GetCurrentBlockHeight(),
+				Other: [][]string{}, W: [][]string{}}
 			if first {
 				ev.Event = "Config"
 				ev.Roles = in.Roles
@@ -498,6 +512,7 @@ func TestVerifTxExec(t *testing.T) {
 		var finalRes []*event.ExecuteNotify
 		for k := 1; k <= len(txs); k++ {
 			blk := tw.makeBlock(txs[:k])
+			site, siteErr := tw.site(prev, txs[k-1], blk)
 			var cur map[string][]byte
 			var notifies []*event.ExecuteNotify
 			if k < len(txs) {
@@ -561,7 +576,7 @@ func TestVerifTxExec(t *testing.T) {
 				}
 				ev.Other = append(ev.Other, []string{sk, val})
 			}
-			ev.Site, ev.Err = tw.site(prev, txs[k-1], blk)
+			ev.Site, ev.Err = site, siteErr
 			if len(ev.Err) > 140 {
 				ev.Err = ev.Err[:140]
 			}
